@@ -158,7 +158,7 @@ package pogreb
 //@ spec func crcOK(m mem, o int) bool = le32(m, o+recSize(m, o)-4) == crc(m, o, recSize(m, o)-4)
 
 // the iterator reads the file of its segment through a reader positioned at it.offset
-//@ spec func segItInv(it *segmentIterator) bool = it != nil && it.f != nil && it.f.file != nil && it.f.file.File != nil && it.r != nil && len(it.buf) == 6 && arr(it.buf) != 0 && fidOf[it.r] == fidOf[it.f.file.File] && hPos[it.r] == int64(it.offset) && fLen[fidOf[it.r]] <= 0xffffffff && fLen[fidOf[it.r]] >= 0 && it.f.file.size == fLen[fidOf[it.r]] && int64(it.offset) <= fLen[fidOf[it.r]]
+//@ spec func segItInv(it *segmentIterator) bool = it != nil && it.f != nil && it.f.file != nil && it.f.file.File != nil && it.r != nil && hOpen[it.r] && len(it.buf) == 6 && arr(it.buf) != 0 && fidOf[it.r] == fidOf[it.f.file.File] && hPos[it.r] == int64(it.offset) && fLen[fidOf[it.r]] <= 0xffffffff && fLen[fidOf[it.r]] >= 0 && it.f.file.size == fLen[fidOf[it.r]] && int64(it.offset) <= fLen[fidOf[it.r]]
 
 //@ func (it *segmentIterator) next() (rec record, err error) [C08,C18,C19,C16]
 //@   requires inv: segItInv(it)
